@@ -11,6 +11,7 @@ import (
 	"math/rand"
 	"strings"
 
+	"github.com/AdguardTeam/urlfilter"
 	"github.com/AdguardTeam/urlfilter/rules"
 )
 
@@ -27,6 +28,8 @@ type scEvent struct {
 	// LowerOK: Request.URLLowerCase is the lower-cased Request.URL - the one text both sides of the argument talk about
 	LowerOK bool `json:"lower_ok"`
 	HasSC   bool `json:"has_shortcut"`
+	// Engine: a network engine holding only this rule reports it for the request
+	Engine bool `json:"engine"`
 }
 
 const scFill = "abcdefghijklmnopqrstuvwxyz0123456789-_"
@@ -89,7 +92,7 @@ func instantiate(pat string, rnd *rand.Rand, pad int, flip bool) string {
 	return b.String()
 }
 
-func scObserve(text, url string) (with, without, lowerOK, hasSC bool, kept string, pv string) {
+func scObserve(text, url string) (with, without, lowerOK, hasSC, engine bool, kept string, pv string) {
 	pv = safeCall(func() {
 		r1, err := rules.NewNetworkRule(text, 1)
 		if err != nil {
@@ -103,6 +106,15 @@ func scObserve(text, url string) (with, without, lowerOK, hasSC bool, kept strin
 		lowerOK = q.URLLowerCase == strings.ToLower(q.URL)
 		with = r1.Match(q)
 		without = r2.Match(rules.NewRequest(url, "", rules.TypeOther))
+		// ... and through the index of a network engine that holds nothing but this rule
+		st, err := layoutStorage([]string{text}, []int{1})
+		if err != nil {
+			panic(err)
+		}
+		engine = false
+		for _, r := range urlfilter.NewNetworkEngine(st).MatchAll(rules.NewRequest(url, "", rules.TypeOther)) {
+			engine = engine || r.RuleText == text
+		}
 	})
 	return
 }
@@ -140,26 +152,34 @@ func cmdDriveShortcut(args []string) error {
 			pats = append(pats, p)
 		}
 	}
-	// grammar-made patterns next to the ones of the bundled lists
+	// grammar-made patterns next to the ones of the bundled lists (the grammar-made ones are all kept)
+	fromLists := len(pats)
 	for i := 0; i < n/4; i++ {
 		p := []string{"||", "|http://", "", "", "||"}[rnd.Intn(5)] + fill(rnd, 2+rnd.Intn(5)) + ".example"
 		for k := rnd.Intn(3); k > 0; k-- {
 			p += []string{"^", "*", "/", "/*/", "^*"}[rnd.Intn(5)] + fill(rnd, 1+rnd.Intn(8))
 		}
 		p += []string{"", "^", "|", "^|", "*"}[rnd.Intn(5)]
+		if i%9 == 4 {
+			// a dollar sign that is the last character of the rule text has no options behind it: it is a literal
+			p = strings.TrimRight(p, "|^*") + []string{"/price$", "?cost=$", "$"}[rnd.Intn(3)]
+		}
 		if !seen[p] {
 			seen[p] = true
 			pats = append(pats, p)
 		}
 	}
+	grammar := append([]string{}, pats[fromLists:]...)
+	pats = pats[:fromLists]
 	rnd.Shuffle(len(pats), func(i, j int) { pats[i], pats[j] = pats[j], pats[i] })
-	if len(pats) > n {
-		pats = pats[:n]
+	if len(pats) > n-len(grammar) {
+		pats = pats[:max(0, n-len(grammar))]
 	}
+	pats = append(pats, grammar...)
 	matches, long, panics := 0, 0, 0
 	var samples []string
 	for _, p := range pats {
-		mc := rnd.Intn(4) == 0
+		mc := rnd.Intn(4) == 0 && !strings.HasSuffix(p, "$")
 		text := p
 		if mc {
 			text += "$match-case"
@@ -177,16 +197,19 @@ func cmdDriveShortcut(args []string) error {
 			{"across-cut", instantiate(p, rnd, 4096-20-len(p)/2-rnd.Intn(8), false)},
 			{"before-cut", instantiate(p, rnd, 4096-30-2*len(p), true)},
 			{"long-tail", instantiate(p, rnd, 0, false) + "?" + fill(rnd, 5000)},
+			// near misses: the URL of the pattern without its last / without its first character
+			{"last-character-missing", instantiate(p[:len(p)-1], rnd, 0, false)},
+			{"first-character-missing", instantiate(p[1:], rnd, 0, false)},
 		}
 		for _, v := range vs {
-			with, without, lowerOK, hasSC, kept, pv := scObserve(text, v.url)
+			with, without, lowerOK, hasSC, engine, kept, pv := scObserve(text, v.url)
 			if pv != "" {
 				panics++
 				fmt.Printf("PANIC %q on a %d-byte URL: %s\n", text, len(v.url), pv)
 				continue
 			}
 			ev := scEvent{Text: text, Pat: bytesToInts(p), Mcase: mc, Variant: v.name, URLLen: len(v.url), With: with, Without: without,
-				LowerOK: lowerOK, HasSC: hasSC, URL: []int{}}
+				LowerOK: lowerOK, HasSC: hasSC, Engine: engine, URL: []int{}}
 			if len(kept) <= 160 {
 				ev.URL = bytesToInts(kept)
 			}
@@ -209,9 +232,9 @@ func cmdDriveShortcut(args []string) error {
 // vh replay-shortcut text=<rule> url=<url>: one observation, printed
 func cmdReplayShortcut(args []string) error {
 	m := argMap(args)
-	with, without, lowerOK, hasSC, kept, pv := scObserve(m["text"], m["url"])
-	summary(map[string]any{"with": with, "without": without, "lower_ok": lowerOK, "has_shortcut": hasSC, "kept_len": len(kept), "panic": pv,
-		"differs": with != without || !lowerOK || pv != ""})
+	with, without, lowerOK, hasSC, engine, kept, pv := scObserve(m["text"], m["url"])
+	summary(map[string]any{"with": with, "without": without, "lower_ok": lowerOK, "has_shortcut": hasSC, "engine": engine, "kept_len": len(kept), "panic": pv,
+		"differs": with != without || engine != with || !lowerOK || pv != ""})
 	return nil
 }
 
